@@ -9,7 +9,7 @@ import (
 
 // names that aim at the group description layer (".json" is appended by the server)
 var curatedNames = []string{
-	"", ".", "..", "/", "//", "\\", "a", "a/b", "a//b", "a/./b", "a/../b", "./a", "../a", "a/", "/a", "a/..", "a/.",
+	"a\\b", "", ".", "..", "/", "//", "\\", "a", "a/b", "a//b", "a/./b", "a/../b", "./a", "../a", "a/", "/a", "a/..", "a/.",
 	"a\\b", "a\\..\\b", "..\\a", "..\\secret\\passwd", "a/b\\..\\..\\..\\secret\\passwd",
 	"../secret/passwd", "../secret/x", "../x", "../passwd", "../secret", "../groups", "../recordings", "../static",
 	"../../x", "../../passwd", "../../secret/passwd", "../groups-evil/x", "../groups/../secret/passwd",
@@ -164,6 +164,7 @@ func benignInputs() []input {
 		{Kind: "delete-form", S: "to-delete.webm", Enc: "form-esc", Method: "POST", Auth: "op", Group: recGroup, Expect: "303"},
 		{Kind: "delete-form", S: "to delete é.webm", Enc: "form-esc", Method: "POST", Auth: "op", Group: autoGroup, Expect: "303"},
 		{Kind: "delete-form", S: "nonexistent.webm", Enc: "form-esc", Method: "POST", Auth: "op", Group: recGroup, Expect: "404"},
+		{Kind: "delete-form", S: "a/b.webm", Enc: "form-esc", Method: "POST", Auth: "op", Group: recGroup, Expect: "400"},
 		{Kind: "record-username", S: "alice", Enc: "direct", Group: recGroup, Expect: "created"},
 		{Kind: "record-username", S: "Alice c/o Bob", Enc: "direct", Group: autoGroup, Expect: "created"},
 		{Kind: "record-username", S: "", Enc: "direct", Group: recGroup, Expect: "created"},
